@@ -363,7 +363,7 @@ def link(state, address: int) -> bytes:
     return b""
 
 
-@metacommand(size=0)
+@metacommand
 def include(state, included_file_path: str):
     include_path = devices.resolve_relative_path(included_file_path, state["filename"])
 
